@@ -304,13 +304,13 @@ class PlayReady(DrmBase):
         else:
             version = options.version
         if la_url is None:
+            # the option layer has already URL-decoded the licenseUrl option
             la_url = options.licenseUrl
-            if la_url is not None:
-                la_url = urllib.parse.unquote_plus(la_url)
-            elif stream.playready_la_url is not None:
-                la_url = stream.playready_la_url
-            else:
-                la_url = self.la_url
+            if la_url is None:
+                if stream.playready_la_url is not None:
+                    la_url = stream.playready_la_url
+                else:
+                    la_url = self.la_url
         if locations is None:
             locations = set(DrmLocation.all())
 
